@@ -37,16 +37,25 @@ end
 /-- the default effective Meta (no Meta anywhere) -/
 abbrev eff0 : MetaCfg := {}
 
-/-- a dataclass without Meta, skip rules, catch-all or init=False fields whose dump keys (aliases declared with
-`all=True` included) lead back to their fields -/
-structure PlainCls (ci : ClassInfo) (ftys : List (S × Ty)) : Prop where
-  noMeta : ci.cmeta = none
+/-- the effective Meta has no skip rule, no tag and ISO date/times -/
+structure NoSkip (eff : MetaCfg) : Prop where
+  sd : eff.skipDefaults.getD false = false
+  sdi : eff.skipDefaultsIf = none
+  si : eff.skipIf = none
+  tag : eff.tag = none
+  ts : eff.marshalTimestamp.getD false = false
+
+/-- a dataclass — with or without a Meta of its own, below any travelling config `cfg` — whose effective Meta
+(`effMeta ci.cmeta cfg`: key transforms, recursive root settings …) has no skip rule / tag / TIMESTAMP mode, without
+catch-all or init=False fields, and whose dump keys (first alias when `all=True`, else the effective dump transform of
+the name) lead the loader (effective load transform, aliases) back to their fields -/
+structure PlainCls (cfg : Option MetaCfg) (ci : ClassInfo) (ftys : List (S × Ty)) : Prop where
+  noSkip : NoSkip (effMeta ci.cmeta cfg)
   names : ci.fields.map (·.name) = ftys.map (·.1)
   nodup : (ci.fields.map (·.name)).Nodup
   plain : ∀ f ∈ ci.fields, f.init = true ∧ f.isCatchAll = false ∧ f.dumpSkip = false ∧ f.skipIf = none
-  /-- the key a field is dumped under — its first alias when `all=True`, else the camelCase of its name — leads the
-  loader back to the field -/
-  keys : ∀ f ∈ ci.fields, ∃ k, dumpKey eff0 f = .ok k ∧ resolveKey eff0 ci k = .ok (.field f.name)
+  keys : ∀ f ∈ ci.fields, ∃ k, dumpKey (effMeta ci.cmeta cfg) f = .ok k ∧
+            resolveKey (effMeta ci.cmeta cfg) ci k = .ok (.field f.name)
 
 /-- types whose dump is never JSON null -/
 def nonNullTy : Ty → Bool
@@ -61,71 +70,71 @@ def nonNullTy : Ty → Bool
   | _ => false
 
 /-- value `v` conforms to type `t`, for the fragment: int, str, bool, Optional, list, dict[str, ·], plain dataclasses -/
-inductive Conf (std : Std) : Ty → PyVal → Prop
-  | int (i : Int) : Conf std .int (.int i)
-  | float (f : PyFloat) : Conf std .float (.float f)
-  | leaf (k : LeafKind) (t : S) : std.validTok k t = true → Conf std (.leaf k) (.leaf k false t)
-  | timedelta (us : Int) : 0 ≤ us → Conf std .timedelta (.timedelta us)
-  | str (s : S) : Conf std .str (.str s)
-  | bool (b : Bool) : Conf std .bool (.bool b)
-  | optNone (t : Ty) : Conf std (.optional t) .none
-  | optSome (t : Ty) (v : PyVal) : nonNullTy t = true → Conf std t v → Conf std (.optional t) v
-  | list (t : Ty) (xs : List PyVal) : (∀ x ∈ xs, Conf std t x) → Conf std (.seq .list t) (.seq .list xs)
-  | vtuple (t : Ty) (xs : List PyVal) : (∀ x ∈ xs, Conf std t x) → Conf std (.vtuple t) (.tuple xs)
-  | deque (t : Ty) (xs : List PyVal) : (∀ x ∈ xs, Conf std t x) → Conf std (.seq .deque t) (.seq .deque xs)
-  | tuple (ts : List Ty) (xs : List PyVal) : ts ≠ [] → xs.length = ts.length → (∀ p ∈ ts.zip xs, Conf std p.1 p.2) →
-      Conf std (.tuple ts) (.tuple xs)
+inductive Conf (std : Std) (cfg : Option MetaCfg) : Ty → PyVal → Prop
+  | int (i : Int) : Conf std cfg .int (.int i)
+  | float (f : PyFloat) : Conf std cfg .float (.float f)
+  | leaf (k : LeafKind) (t : S) : std.validTok k t = true → Conf std cfg (.leaf k) (.leaf k false t)
+  | timedelta (us : Int) : 0 ≤ us → Conf std cfg .timedelta (.timedelta us)
+  | str (s : S) : Conf std cfg .str (.str s)
+  | bool (b : Bool) : Conf std cfg .bool (.bool b)
+  | optNone (t : Ty) : Conf std cfg (.optional t) .none
+  | optSome (t : Ty) (v : PyVal) : nonNullTy t = true → Conf std cfg t v → Conf std cfg (.optional t) v
+  | list (t : Ty) (xs : List PyVal) : (∀ x ∈ xs, Conf std cfg t x) → Conf std cfg (.seq .list t) (.seq .list xs)
+  | vtuple (t : Ty) (xs : List PyVal) : (∀ x ∈ xs, Conf std cfg t x) → Conf std cfg (.vtuple t) (.tuple xs)
+  | deque (t : Ty) (xs : List PyVal) : (∀ x ∈ xs, Conf std cfg t x) → Conf std cfg (.seq .deque t) (.seq .deque xs)
+  | tuple (ts : List Ty) (xs : List PyVal) : ts ≠ [] → xs.length = ts.length → (∀ p ∈ ts.zip xs, Conf std cfg p.1 p.2) →
+      Conf std cfg (.tuple ts) (.tuple xs)
   | enum (name : S) (members : List (S × Lit)) (m : S) (v : Lit) : (m, v) ∈ members → jEqLit v.toJ v = true →
-      (∀ m' ∈ members, jEqLit v.toJ m'.2 = true → m' = (m, v)) → Conf std (.enum name members) (.enum name m v)
-  | dict (t : Ty) (kvs : List (S × PyVal)) : (kvs.map (·.1)).Nodup → (∀ p ∈ kvs, Conf std t p.2) →
-      Conf std (.map .dict .str t) (.map .dict (kvs.map (fun p => (.str p.1, p.2))))
-  | inst (ci : ClassInfo) (ftys : List (S × Ty)) (vals : List PyVal) : PlainCls ci ftys → vals.length = ftys.length →
-      (∀ p ∈ ftys.zip vals, Conf std p.1.2 p.2) →
-      Conf std (.cls ci ftys) (.inst ci ((ftys.map (·.1)).zip vals))
+      (∀ m' ∈ members, jEqLit v.toJ m'.2 = true → m' = (m, v)) → Conf std cfg (.enum name members) (.enum name m v)
+  | dict (t : Ty) (kvs : List (S × PyVal)) : (kvs.map (·.1)).Nodup → (∀ p ∈ kvs, Conf std cfg t p.2) →
+      Conf std cfg (.map .dict .str t) (.map .dict (kvs.map (fun p => (.str p.1, p.2))))
+  | inst (ci : ClassInfo) (ftys : List (S × Ty)) (vals : List PyVal) : PlainCls cfg ci ftys → vals.length = ftys.length →
+      (∀ p ∈ ftys.zip vals, Conf std cfg p.1.2 p.2) →
+      Conf std cfg (.cls ci ftys) (.inst ci ((ftys.map (·.1)).zip vals))
 
 
 /-- the round-trip statement for one value -/
-def RT (std : Std) (t : Ty) (v : PyVal) : Prop :=
-  ∀ d, dumpV std false none v = .ok d → loadD std none t (toJ d) = .ok v
+def RT (std : Std) (cfg : Option MetaCfg) (t : Ty) (v : PyVal) : Prop :=
+  ∀ d, dumpV std false cfg v = .ok d → loadD std cfg t (toJ d) = .ok v
 
-theorem dump_int (std : Std) (i : Int) : dumpV std false none (.int i) = .ok (.int i) := by
+theorem dump_int (std : Std) (cfg : Option MetaCfg) (i : Int) : dumpV std false cfg (.int i) = .ok (.int i) := by
   simp [dumpV, dumpScalar, pure, Except.pure]
-theorem dump_str (std : Std) (s : S) : dumpV std false none (.str s) = .ok (.str s) := by
+theorem dump_str (std : Std) (cfg : Option MetaCfg) (s : S) : dumpV std false cfg (.str s) = .ok (.str s) := by
   simp [dumpV, dumpScalar, pure, Except.pure]
-theorem dump_bool (std : Std) (b : Bool) : dumpV std false none (.bool b) = .ok (.bool b) := by
+theorem dump_bool (std : Std) (cfg : Option MetaCfg) (b : Bool) : dumpV std false cfg (.bool b) = .ok (.bool b) := by
   simp [dumpV, dumpScalar, pure, Except.pure]
-theorem dump_none (std : Std) : dumpV std false none .none = .ok .null := by
+theorem dump_none (std : Std) (cfg : Option MetaCfg) : dumpV std false cfg .none = .ok .null := by
   simp [dumpV, dumpScalar, pure, Except.pure]
 
-theorem rt_int (std : Std) (i : Int) : RT std .int (.int i) := by
+theorem rt_int (std : Std) (cfg : Option MetaCfg) (i : Int) : RT std cfg .int (.int i) := by
   intro d h; rw [dump_int] at h; cases h; simp [toJ, loadD, asInt, pure, Except.pure]
-theorem rt_str (std : Std) (s : S) : RT std .str (.str s) := by
+theorem rt_str (std : Std) (cfg : Option MetaCfg) (s : S) : RT std cfg .str (.str s) := by
   intro d h; rw [dump_str] at h; cases h; simp [toJ, loadD, asStr, pure, Except.pure]
-theorem rt_bool (std : Std) (b : Bool) : RT std .bool (.bool b) := by
+theorem rt_bool (std : Std) (cfg : Option MetaCfg) (b : Bool) : RT std cfg .bool (.bool b) := by
   intro d h; rw [dump_bool] at h; cases h; simp [toJ, loadD, asBool, pure, Except.pure]
-theorem rt_optNone (std : Std) (t : Ty) : RT std (.optional t) .none := by
+theorem rt_optNone (std : Std) (cfg : Option MetaCfg) (t : Ty) : RT std cfg (.optional t) .none := by
   intro d h; rw [dump_none] at h; cases h; simp [toJ, loadD, pure, Except.pure]
 
 
-theorem dumpV_list (std : Std) (xs : List PyVal) :
-    dumpV std false none (.seq .list xs) = (dumpList std false none xs).map DVal.list := by
+theorem dumpV_list (std : Std) (cfg : Option MetaCfg) (xs : List PyVal) :
+    dumpV std false cfg (.seq .list xs) = (dumpList std false cfg xs).map DVal.list := by
   rw [dumpV]
   simp only [hookFor_list, bind, Except.bind, pure, Except.pure, Except.map]
 
-theorem dumpV_dict (std : Std) (kvs : List (PyVal × PyVal)) :
-    dumpV std false none (.map .dict kvs) = (dumpPairs std false none kvs).map (DVal.dict false) := by
+theorem dumpV_dict (std : Std) (cfg : Option MetaCfg) (kvs : List (PyVal × PyVal)) :
+    dumpV std false cfg (.map .dict kvs) = (dumpPairs std false cfg kvs).map (DVal.dict false) := by
   rw [dumpV]
   simp only [hookFor_dict, bind, Except.bind, pure, Except.pure, Except.map]
-  cases dumpPairs std false none kvs <;> simp
+  cases dumpPairs std false cfg kvs <;> simp
 
-theorem loadD_optional_nonnull (std : Std) (t : Ty) (o : JVal) (h : o ≠ .null) :
-    loadD std none (.optional t) o = loadD std none t o := by
+theorem loadD_optional_nonnull (std : Std) (cfg : Option MetaCfg) (t : Ty) (o : JVal) (h : o ≠ .null) :
+    loadD std cfg (.optional t) o = loadD std cfg t o := by
   rw [loadD]
   cases o <;> simp_all
 
-theorem mapME_list (std : Std) (t : Ty) : ∀ (xs : List PyVal) (ds : List DVal),
-    (∀ x ∈ xs, RT std t x) → dumpList std false none xs = .ok ds →
-    mapME (fun x => loadD std none t x) (toJList ds) = .ok xs
+theorem mapME_list (std : Std) (cfg : Option MetaCfg) (t : Ty) : ∀ (xs : List PyVal) (ds : List DVal),
+    (∀ x ∈ xs, RT std cfg t x) → dumpList std false cfg xs = .ok ds →
+    mapME (fun x => loadD std cfg t x) (toJList ds) = .ok xs
   | [], ds, _, h => by
     simp only [dumpList, pure, Except.pure, Except.ok.injEq] at h; subst h; rfl
   | x :: xs, ds, ih, h => by
@@ -138,36 +147,36 @@ theorem mapME_list (std : Std) (t : Ty) : ∀ (xs : List PyVal) (ds : List DVal)
       · next ys hys =>
         simp only [pure, Except.pure, Except.ok.injEq] at h; subst h
         have h1 := ih x (by simp) y hy
-        have h2 := mapME_list std t xs ys (fun z hz => ih z (by simp [hz])) hys
+        have h2 := mapME_list std cfg t xs ys (fun z hz => ih z (by simp [hz])) hys
         simp [toJList, mapME, h1, h2, bind, Except.bind, pure, Except.pure]
 
-theorem rt_list (std : Std) (t : Ty) (xs : List PyVal) (ih : ∀ x ∈ xs, RT std t x) : RT std (.seq .list t) (.seq .list xs) := by
+theorem rt_list (std : Std) (cfg : Option MetaCfg) (t : Ty) (xs : List PyVal) (ih : ∀ x ∈ xs, RT std cfg t x) : RT std cfg (.seq .list t) (.seq .list xs) := by
   intro d h
   rw [dumpV_list] at h
-  cases hd : dumpList std false none xs with
+  cases hd : dumpList std false cfg xs with
   | error e => simp [hd, Except.map] at h
   | ok ds =>
     simp [hd, Except.map] at h; subst h
     rw [loadD]
-    simp only [toJ, jIter, bind, Except.bind, mapME_list std t xs ds ih hd, mkSeq, pure, Except.pure]
+    simp only [toJ, jIter, bind, Except.bind, mapME_list std cfg t xs ds ih hd, mkSeq, pure, Except.pure]
 
 
 /-- the Python-side pair of a `dict[str, ·]` entry -/
 abbrev pyPair (p : S × PyVal) : PyVal × PyVal := (.str p.1, p.2)
 
 /-- the per-entry loader of `dict[str, t]` (the function `loadD` maps over the entries) -/
-def pairLoader (std : Std) (t : Ty) (kv : S × JVal) : Except LErr (PyVal × PyVal) := do
-  let k' ← loadD std none .str (.str kv.1)
-  let v' ← loadD std none t kv.2
+def pairLoader (std : Std) (cfg : Option MetaCfg) (t : Ty) (kv : S × JVal) : Except LErr (PyVal × PyVal) := do
+  let k' ← loadD std cfg .str (.str kv.1)
+  let v' ← loadD std cfg t kv.2
   pure (k', v')
 
-theorem pairLoader_eq (std : Std) (t : Ty) (k : S) (j : JVal) (v : PyVal) (h : loadD std none t j = .ok v) :
-    pairLoader std t (k, j) = .ok (.str k, v) := by
+theorem pairLoader_eq (std : Std) (cfg : Option MetaCfg) (t : Ty) (k : S) (j : JVal) (v : PyVal) (h : loadD std cfg t j = .ok v) :
+    pairLoader std cfg t (k, j) = .ok (.str k, v) := by
   simp [pairLoader, loadD, asStr, h, bind, Except.bind, pure, Except.pure]
 
-theorem mapME_pairs (std : Std) (t : Ty) : ∀ (kvs : List (S × PyVal)) (ps : List (DVal × DVal)),
-    (∀ p ∈ kvs, RT std t p.2) → dumpPairs std false none (kvs.map pyPair) = .ok ps →
-    mapME (pairLoader std t) (toJPairs ps) = .ok (kvs.map pyPair)
+theorem mapME_pairs (std : Std) (cfg : Option MetaCfg) (t : Ty) : ∀ (kvs : List (S × PyVal)) (ps : List (DVal × DVal)),
+    (∀ p ∈ kvs, RT std cfg t p.2) → dumpPairs std false cfg (kvs.map pyPair) = .ok ps →
+    mapME (pairLoader std cfg t) (toJPairs ps) = .ok (kvs.map pyPair)
   | [], ps, _, h => by
     simp only [List.map_nil, dumpPairs, pure, Except.pure, Except.ok.injEq] at h; subst h; rfl
   | (k, v) :: r, ps, ih, h => by
@@ -179,8 +188,8 @@ theorem mapME_pairs (std : Std) (t : Ty) : ∀ (kvs : List (S × PyVal)) (ps : L
       · simp at h
       · next r' hr =>
         simp only [pure, Except.pure, Except.ok.injEq] at h; subst h
-        have h1 := pairLoader_eq std t k (toJ v') v (ih (k, v) (by simp) v' hv)
-        have h2 := mapME_pairs std t r r' (fun z hz => ih z (by simp [hz])) hr
+        have h1 := pairLoader_eq std cfg t k (toJ v') v (ih (k, v) (by simp) v' hv)
+        have h2 := mapME_pairs std cfg t r r' (fun z hz => ih z (by simp [hz])) hr
         simp only [toJPairs, keyStr, mapME, h1, h2, bind, Except.bind, pure, Except.pure, List.map_cons, pyPair]
 
 theorem pyKeyEq_str (a b : S) : pyKeyEq (.str a) (.str b) = (a == b) := by
@@ -213,50 +222,50 @@ theorem foldl_dictInsert (kvs : List (S × PyVal)) : ∀ (acc : List (S × PyVal
     simpa [List.append_assoc] using this
 
 
-theorem rt_dict (std : Std) (t : Ty) (kvs : List (S × PyVal)) (hnd : (kvs.map (·.1)).Nodup)
-    (ih : ∀ p ∈ kvs, RT std t p.2) : RT std (.map .dict .str t) (.map .dict (kvs.map pyPair)) := by
+theorem rt_dict (std : Std) (cfg : Option MetaCfg) (t : Ty) (kvs : List (S × PyVal)) (hnd : (kvs.map (·.1)).Nodup)
+    (ih : ∀ p ∈ kvs, RT std cfg t p.2) : RT std cfg (.map .dict .str t) (.map .dict (kvs.map pyPair)) := by
   intro d h
   rw [dumpV_dict] at h
-  cases hd : dumpPairs std false none (kvs.map pyPair) with
+  cases hd : dumpPairs std false cfg (kvs.map pyPair) with
   | error e => simp [hd, Except.map] at h
   | ok ps =>
     simp [hd, Except.map] at h; subst h
-    have hm := mapME_pairs std t kvs ps ih hd
+    have hm := mapME_pairs std cfg t kvs ps ih hd
     have hall : (kvs.map pyPair).all (fun p => p.1.hashable) = true := by
       simp [List.all_eq_true, pyPair, PyVal.hashable]
     have hfold := foldl_dictInsert kvs [] (by simpa using hnd)
     have htj : toJ (.dict false ps) = .dict (toJPairs ps) := by rw [toJ]
     rw [htj, loadD]
-    show (do let ps ← mapME (pairLoader std t) (toJPairs ps); mkMap .dict ps) = _
+    show (do let ps ← mapME (pairLoader std cfg t) (toJPairs ps); mkMap .dict ps) = _
     simp only [hm, bind, Except.bind, mkMap, hall, if_true, pure, Except.pure]
     simp only [List.map_nil, List.nil_append] at hfold
     rw [hfold]
 
-theorem dumpV_tuple (std : Std) (xs : List PyVal) :
-    dumpV std false none (.tuple xs) = (dumpList std false none xs).map DVal.tuple := by
+theorem dumpV_tuple (std : Std) (cfg : Option MetaCfg) (xs : List PyVal) :
+    dumpV std false cfg (.tuple xs) = (dumpList std false cfg xs).map DVal.tuple := by
   rw [dumpV]
   simp only [hookFor_tuple, bind, Except.bind, pure, Except.pure, Except.map]
 
-theorem rt_vtuple (std : Std) (t : Ty) (xs : List PyVal) (ih : ∀ x ∈ xs, RT std t x) : RT std (.vtuple t) (.tuple xs) := by
+theorem rt_vtuple (std : Std) (cfg : Option MetaCfg) (t : Ty) (xs : List PyVal) (ih : ∀ x ∈ xs, RT std cfg t x) : RT std cfg (.vtuple t) (.tuple xs) := by
   intro d h
   rw [dumpV_tuple] at h
-  cases hd : dumpList std false none xs with
+  cases hd : dumpList std false cfg xs with
   | error e => simp [hd, Except.map] at h
   | ok ds =>
     simp [hd, Except.map] at h; subst h
     have htj : toJ (.tuple ds) = .list (toJList ds) := by rw [toJ]
     rw [htj, loadD]
-    simp only [jIter, bind, Except.bind, mapME_list std t xs ds ih hd, pure, Except.pure]
+    simp only [jIter, bind, Except.bind, mapME_list std cfg t xs ds ih hd, pure, Except.pure]
 
 theorem toJ_litToD (v : Lit) : toJ v.toD = v.toJ := by
   cases v <;> (simp only [Lit.toD, Lit.toJ]; rw [toJ])
 
-theorem dump_enum (std : Std) (name m : S) (v : Lit) : dumpV std false none (.enum name m v) = .ok v.toD := by
+theorem dump_enum (std : Std) (cfg : Option MetaCfg) (name m : S) (v : Lit) : dumpV std false cfg (.enum name m v) = .ok v.toD := by
   simp [dumpV, dumpScalar, pure, Except.pure]
 
-theorem rt_enum (std : Std) (name : S) (members : List (S × Lit)) (m : S) (v : Lit) (hm : (m, v) ∈ members)
+theorem rt_enum (std : Std) (cfg : Option MetaCfg) (name : S) (members : List (S × Lit)) (m : S) (v : Lit) (hm : (m, v) ∈ members)
     (hrefl : jEqLit v.toJ v = true) (huniq : ∀ m' ∈ members, jEqLit v.toJ m'.2 = true → m' = (m, v)) :
-    RT std (.enum name members) (.enum name m v) := by
+    RT std cfg (.enum name members) (.enum name m v) := by
   intro d h
   rw [dump_enum] at h; cases h
   rw [toJ_litToD, loadD]
@@ -302,10 +311,10 @@ theorem colon_mem_tdStr (us : Int) : ':' ∈ tdStr us := by
   split <;> split <;> simp
 
 
-theorem dump_timedelta (std : Std) (us : Int) : dumpV std false none (.timedelta us) = .ok (.str (tdStr us)) := by
+theorem dump_timedelta (std : Std) (cfg : Option MetaCfg) (us : Int) : dumpV std false cfg (.timedelta us) = .ok (.str (tdStr us)) := by
   simp [dumpV, dumpScalar, pure, Except.pure]
 
-theorem rt_timedelta (std : Std) (laws : StdLaws std) (us : Int) (h0 : 0 ≤ us) : RT std .timedelta (.timedelta us) := by
+theorem rt_timedelta (std : Std) (cfg : Option MetaCfg) (laws : StdLaws std) (us : Int) (h0 : 0 ≤ us) : RT std cfg .timedelta (.timedelta us) := by
   intro d h
   rw [dump_timedelta] at h; cases h
   obtain ⟨n, hn, hs⟩ := laws.timedelta_rt us h0
@@ -314,28 +323,28 @@ theorem rt_timedelta (std : Std) (laws : StdLaws std) (us : Int) (h0 : 0 ≤ us)
   simp only [asTimedelta, looksNumeric_false (tdStr us) (colon_mem_tdStr us), Bool.false_eq_true, if_false, hn, hs,
     pure, Except.pure]
 
-theorem dumpV_deque (std : Std) (xs : List PyVal) :
-    dumpV std false none (.seq .deque xs) = (dumpList std false none xs).map DVal.list := by
+theorem dumpV_deque (std : Std) (cfg : Option MetaCfg) (xs : List PyVal) :
+    dumpV std false cfg (.seq .deque xs) = (dumpList std false cfg xs).map DVal.list := by
   rw [dumpV]
   simp only [hookFor_deque, bind, Except.bind, pure, Except.pure, Except.map]
 
-theorem rt_deque (std : Std) (t : Ty) (xs : List PyVal) (ih : ∀ x ∈ xs, RT std t x) : RT std (.seq .deque t) (.seq .deque xs) := by
+theorem rt_deque (std : Std) (cfg : Option MetaCfg) (t : Ty) (xs : List PyVal) (ih : ∀ x ∈ xs, RT std cfg t x) : RT std cfg (.seq .deque t) (.seq .deque xs) := by
   intro d h
   rw [dumpV_deque] at h
-  cases hd : dumpList std false none xs with
+  cases hd : dumpList std false cfg xs with
   | error e => simp [hd, Except.map] at h
   | ok ds =>
     simp [hd, Except.map] at h; subst h
     have htj : toJ (.list ds) = .list (toJList ds) := by rw [toJ]
     rw [htj, loadD]
-    simp only [jIter, bind, Except.bind, mapME_list std t xs ds ih hd, mkSeq, pure, Except.pure]
+    simp only [jIter, bind, Except.bind, mapME_list std cfg t xs ds ih hd, mkSeq, pure, Except.pure]
 
 theorem toJList_length (ds : List DVal) : (toJList ds).length = ds.length := by
   induction ds with
   | nil => rfl
   | cons x r ih => simp [toJList, ih]
 
-theorem dumpList_length (std : Std) : ∀ (xs : List PyVal) (ds : List DVal), dumpList std false none xs = .ok ds → ds.length = xs.length
+theorem dumpList_length (std : Std) (cfg : Option MetaCfg) : ∀ (xs : List PyVal) (ds : List DVal), dumpList std false cfg xs = .ok ds → ds.length = xs.length
   | [], ds, h => by simp only [dumpList, pure, Except.pure, Except.ok.injEq] at h; subst h; rfl
   | x :: xs, ds, h => by
     simp only [dumpList, bind, Except.bind] at h
@@ -345,11 +354,11 @@ theorem dumpList_length (std : Std) : ∀ (xs : List PyVal) (ds : List DVal), du
       · simp at h
       · next ys hys =>
         simp only [pure, Except.pure, Except.ok.injEq] at h; subst h
-        simp [dumpList_length std xs ys hys]
+        simp [dumpList_length std cfg xs ys hys]
 
-theorem loadZip_ok (std : Std) : ∀ (ts : List Ty) (xs : List PyVal) (ds : List DVal), xs.length = ts.length →
-    (∀ p ∈ ts.zip xs, RT std p.1 p.2) → dumpList std false none xs = .ok ds →
-    loadZip std none ts (toJList ds) = .ok xs
+theorem loadZip_ok (std : Std) (cfg : Option MetaCfg) : ∀ (ts : List Ty) (xs : List PyVal) (ds : List DVal), xs.length = ts.length →
+    (∀ p ∈ ts.zip xs, RT std cfg p.1 p.2) → dumpList std false cfg xs = .ok ds →
+    loadZip std cfg ts (toJList ds) = .ok xs
   | [], xs, ds, hl, _, h => by
     have : xs = [] := by simpa using hl
     subst this
@@ -365,30 +374,30 @@ theorem loadZip_ok (std : Std) : ∀ (ts : List Ty) (xs : List PyVal) (ds : List
       · next ys hys =>
         simp only [pure, Except.pure, Except.ok.injEq] at h; subst h
         have h1 := ih (t, x) (by simp) y hy
-        have h2 := loadZip_ok std ts xs ys (by simpa using hl) (fun p hp => ih p (by simp [hp])) hys
+        have h2 := loadZip_ok std cfg ts xs ys (by simpa using hl) (fun p hp => ih p (by simp [hp])) hys
         simp only at h1
         simp [toJList, loadZip, h1, h2, bind, Except.bind, pure, Except.pure]
 
-theorem rt_tuple (std : Std) (ts : List Ty) (xs : List PyVal) (hne : ts ≠ []) (hl : xs.length = ts.length)
-    (ih : ∀ p ∈ ts.zip xs, RT std p.1 p.2) : RT std (.tuple ts) (.tuple xs) := by
+theorem rt_tuple (std : Std) (cfg : Option MetaCfg) (ts : List Ty) (xs : List PyVal) (hne : ts ≠ []) (hl : xs.length = ts.length)
+    (ih : ∀ p ∈ ts.zip xs, RT std cfg p.1 p.2) : RT std cfg (.tuple ts) (.tuple xs) := by
   intro d h
   rw [dumpV_tuple] at h
-  cases hd : dumpList std false none xs with
+  cases hd : dumpList std false cfg xs with
   | error e => simp [hd, Except.map] at h
   | ok ds =>
     simp [hd, Except.map] at h; subst h
     have htj : toJ (.tuple ds) = .list (toJList ds) := by rw [toJ]
-    have hlen : (toJList ds).length = ts.length := by rw [toJList_length, dumpList_length std xs ds hd, hl]
+    have hlen : (toJList ds).length = ts.length := by rw [toJList_length, dumpList_length std cfg xs ds hd, hl]
     have hreq : (ts.filter (fun t => !acceptsNone t)).length ≤ ts.length := List.length_filter_le _ _
     have hemp : ts.isEmpty = false := by cases ts <;> simp_all
     rw [htj, loadD]
     simp only [jLen, jIter, hemp, Bool.false_eq_true, if_false, hlen]
-    simp only [hreq, decide_true, Nat.le_refl, Bool.and_self, if_true, loadZip_ok std ts xs ds hl ih hd, bind, Except.bind,
+    simp only [hreq, decide_true, Nat.le_refl, Bool.and_self, if_true, loadZip_ok std cfg ts xs ds hl ih hd, bind, Except.bind,
       pure, Except.pure]
 
-theorem dump_float (std : Std) (f : PyFloat) : dumpV std false none (.float f) = .ok (.float f) := by
+theorem dump_float (std : Std) (cfg : Option MetaCfg) (f : PyFloat) : dumpV std false cfg (.float f) = .ok (.float f) := by
   simp [dumpV, dumpScalar, pure, Except.pure]
-theorem rt_float (std : Std) (f : PyFloat) : RT std .float (.float f) := by
+theorem rt_float (std : Std) (cfg : Option MetaCfg) (f : PyFloat) : RT std cfg .float (.float f) := by
   intro d h; rw [dump_float] at h; cases h; simp [toJ, loadD, asFloat, pure, Except.pure]
 
 /-- what the dump writes for a leaf value (ISO mode): the token, with a trailing `+00:00` as `Z` for time / datetime -/
@@ -398,11 +407,11 @@ def leafText (k : LeafKind) (t : S) : S :=
   | .datetime => isoZ t
   | _ => t
 
-theorem dump_leaf (std : Std) (k : LeafKind) (t : S) : dumpV std false none (.leaf k false t) = .ok (.str (leafText k t)) := by
+theorem dump_leaf (std : Std) (cfg : Option MetaCfg) (k : LeafKind) (t : S) : dumpV std false cfg (.leaf k false t) = .ok (.str (leafText k t)) := by
   cases k <;> simp [dumpV, dumpScalar, leafText, pure, Except.pure]
 
-theorem rt_leaf (std : Std) (laws : StdLaws std) (k : LeafKind) (t : S) (ht : std.validTok k t = true) :
-    RT std (.leaf k) (.leaf k false t) := by
+theorem rt_leaf (std : Std) (cfg : Option MetaCfg) (laws : StdLaws std) (k : LeafKind) (t : S) (ht : std.validTok k t = true) :
+    RT std cfg (.leaf k) (.leaf k false t) := by
   intro d h
   rw [dump_leaf] at h; cases h
   cases k
@@ -417,8 +426,8 @@ theorem rt_leaf (std : Std) (laws : StdLaws std) (k : LeafKind) (t : S) (ht : st
     have hz : zToOffset (isoZ t) = t := zToOffset_isoZ t (laws.datetime_noZ t ht)
     rw [hz, laws.datetime_rt t ht]; rfl
 
-theorem dump_nonnull (std : Std) (t : Ty) (v : PyVal) (hc : Conf std t v) (hn : nonNullTy t = true) (d : DVal)
-    (h : dumpV std false none v = .ok d) : toJ d ≠ .null := by
+theorem dump_nonnull (std : Std) (cfg : Option MetaCfg) (t : Ty) (v : PyVal) (hc : Conf std cfg t v) (hn : nonNullTy t = true) (d : DVal)
+    (h : dumpV std false cfg v = .ok d) : toJ d ≠ .null := by
   cases hc with
   | int i => rw [dump_int] at h; cases h; simp [toJ]
   | float f => rw [dump_float] at h; cases h; simp [toJ]
@@ -430,24 +439,24 @@ theorem dump_nonnull (std : Std) (t : Ty) (v : PyVal) (hc : Conf std t v) (hn : 
   | optSome t v _ _ => simp [nonNullTy] at hn
   | list t xs _ =>
     rw [dumpV_list] at h
-    cases hd : dumpList std false none xs <;> simp [hd, Except.map] at h
+    cases hd : dumpList std false cfg xs <;> simp [hd, Except.map] at h
     subst h; simp [toJ]
   | vtuple t xs _ =>
     rw [dumpV_tuple] at h
-    cases hd : dumpList std false none xs <;> simp [hd, Except.map] at h
+    cases hd : dumpList std false cfg xs <;> simp [hd, Except.map] at h
     subst h; simp [toJ]
   | tuple ts xs _ _ _ =>
     rw [dumpV_tuple] at h
-    cases hd : dumpList std false none xs <;> simp [hd, Except.map] at h
+    cases hd : dumpList std false cfg xs <;> simp [hd, Except.map] at h
     subst h; simp [toJ]
   | deque t xs _ =>
     rw [dumpV_deque] at h
-    cases hd : dumpList std false none xs <;> simp [hd, Except.map] at h
+    cases hd : dumpList std false cfg xs <;> simp [hd, Except.map] at h
     subst h; simp [toJ]
   | enum name members m v _ _ _ => simp [nonNullTy] at hn
   | dict t kvs _ _ =>
     rw [dumpV_dict] at h
-    cases hd : dumpPairs std false none (kvs.map (fun p => (PyVal.str p.1, p.2))) <;> simp [hd, Except.map] at h
+    cases hd : dumpPairs std false cfg (kvs.map (fun p => (PyVal.str p.1, p.2))) <;> simp [hd, Except.map] at h
     subst h; simp [toJ]
   | inst ci ftys vals _ _ _ =>
     rw [dumpV] at h
@@ -459,10 +468,10 @@ theorem dump_nonnull (std : Std) (t : Ty) (v : PyVal) (hc : Conf std t v) (hn : 
       unfold finishInst
       split <;> simp [toJ]
 
-theorem rt_optSome (std : Std) (t : Ty) (v : PyVal) (hn : nonNullTy t = true) (hc : Conf std t v) (ih : RT std t v) :
-    RT std (.optional t) v := by
+theorem rt_optSome (std : Std) (cfg : Option MetaCfg) (t : Ty) (v : PyVal) (hn : nonNullTy t = true) (hc : Conf std cfg t v) (ih : RT std cfg t v) :
+    RT std cfg (.optional t) v := by
   intro d h
-  rw [loadD_optional_nonnull std t (toJ d) (dump_nonnull std t v hc hn d h)]
+  rw [loadD_optional_nonnull std cfg t (toJ d) (dump_nonnull std cfg t v hc hn d h)]
   exact ih d h
 
 
@@ -536,24 +545,24 @@ theorem dumpFields_cons_plain (std : Std) (ts : Bool) (cfg : Option MetaCfg) (ef
 /-- name / value of an entry -/
 abbrev nv (e : (S × Ty) × PyVal) : S × PyVal := (e.1.1, e.2)
 
-structure GoodEntry (std : Std) (ci : ClassInfo) (ftys : List (S × Ty)) (e : (S × Ty) × PyVal) : Prop where
+structure GoodEntry (std : Std) (cfg : Option MetaCfg) (ci : ClassInfo) (ftys : List (S × Ty)) (e : (S × Ty) × PyVal) : Prop where
   fi : ∃ f ∈ ci.fields, f.name = e.1.1
-  ty : ∀ j, loadField std none e.1.1 j ftys = loadD std none e.1.2 j
-  rt : RT std e.1.2 e.2
+  ty : ∀ j, loadField std cfg e.1.1 j ftys = loadD std cfg e.1.2 j
+  rt : RT std cfg e.1.2 e.2
 
-theorem fieldSkipped_plain (f : FieldInfo) (v : PyVal) (h1 : f.dumpSkip = false) (h2 : f.skipIf = none) :
-    fieldSkipped eff0 {} f v = .ok false := by
-  simp [fieldSkipped, excluded, skipDefaultsOn, ownCond, h1, h2, bind, Except.bind, pure, Except.pure]
+theorem fieldSkipped_plain (eff : MetaCfg) (hn : NoSkip eff) (f : FieldInfo) (v : PyVal) (h1 : f.dumpSkip = false)
+    (h2 : f.skipIf = none) : fieldSkipped eff {} f v = .ok false := by
+  simp [fieldSkipped, excluded, skipDefaultsOn, ownCond, hn.sd, hn.sdi, hn.si, h1, h2, bind, Except.bind, pure, Except.pure]
 
 theorem toJPairs_append (a b : List (DVal × DVal)) : toJPairs (a ++ b) = toJPairs a ++ toJPairs b := by
   induction a with
   | nil => rfl
   | cons x r ih => obtain ⟨k, v⟩ := x; simp [toJPairs, ih]
 
-theorem fields_chain (std : Std) (ci : ClassInfo) (ftys : List (S × Ty)) (hp : PlainCls ci ftys) :
-    ∀ (l : List ((S × Ty) × PyVal)) (body : List (DVal × DVal)), (∀ e ∈ l, GoodEntry std ci ftys e) →
-      dumpFields std false none eff0 {} ci (l.map nv) = .ok body →
-      loadKeysWith (fun f v => loadField std none f v ftys) eff0 ci (toJPairs body) = .ok (l.map nv, [])
+theorem fields_chain (std : Std) (cfg : Option MetaCfg) (ci : ClassInfo) (ftys : List (S × Ty)) (hp : PlainCls cfg ci ftys) :
+    ∀ (l : List ((S × Ty) × PyVal)) (body : List (DVal × DVal)), (∀ e ∈ l, GoodEntry std cfg ci ftys e) →
+      dumpFields std false cfg (effMeta ci.cmeta cfg) {} ci (l.map nv) = .ok body →
+      loadKeysWith (fun f v => loadField std cfg f v ftys) (effMeta ci.cmeta cfg) ci (toJPairs body) = .ok (l.map nv, [])
   | [], body, _, h => by
     simp only [List.map_nil, dumpFields, pure, Except.pure, Except.ok.injEq] at h; subst h; rfl
   | e :: r, body, hg, h => by
@@ -564,8 +573,8 @@ theorem fields_chain (std : Std) (ci : ClassInfo) (ftys : List (S × Ty)) (hp : 
       have := find_unique (fun g : FieldInfo => g.name) ci.fields f hp.nodup hf
       simpa [hname] using this
     rw [List.map_cons, show nv e = (e.1.1, e.2) from rfl,
-      dumpFields_cons_plain std false none eff0 {} ci e.1.1 e.2 (r.map nv) (by simp [hfind, hpl.2.1])] at h
-    simp only [hfind, Option.getD_some, fieldSkipped_plain f e.2 hpl.2.2.1 hpl.2.2.2, bind, Except.bind,
+      dumpFields_cons_plain std false cfg (effMeta ci.cmeta cfg) {} ci e.1.1 e.2 (r.map nv) (by simp [hfind, hpl.2.1])] at h
+    simp only [hfind, Option.getD_some, fieldSkipped_plain _ hp.noSkip f e.2 hpl.2.2.1 hpl.2.2.2, bind, Except.bind,
       Bool.false_eq_true, if_false] at h
     rw [hkey] at h
     simp only at h
@@ -577,15 +586,15 @@ theorem fields_chain (std : Std) (ci : ClassInfo) (ftys : List (S × Ty)) (hp : 
       · simp at h
       · next more hmore =>
         simp only [Except.ok.injEq] at h; subst h
-        have hload : loadField std none e.1.1 (toJ d) ftys = .ok e.2 := by
+        have hload : loadField std cfg e.1.1 (toJ d) ftys = .ok e.2 := by
           rw [(hg e (by simp)).ty]; exact (hg e (by simp)).rt d hd
-        have ih := fields_chain std ci ftys hp r more (fun x hx => hg x (by simp [hx])) hmore
+        have ih := fields_chain std cfg ci ftys hp r more (fun x hx => hg x (by simp [hx])) hmore
         simp only [List.singleton_append, toJPairs, keyStr, loadKeysWith, hname ▸ hres, bind, Except.bind]
         simp [hload, ih, Except.mapError, pure, Except.pure, nv]
 
 
-theorem loadField_lookup (std : Std) (j : JVal) : ∀ (ftys : List (S × Ty)) (n : S) (t : Ty), (ftys.map (·.1)).Nodup →
-    (n, t) ∈ ftys → loadField std none n j ftys = loadD std none t j
+theorem loadField_lookup (std : Std) (cfg : Option MetaCfg) (j : JVal) : ∀ (ftys : List (S × Ty)) (n : S) (t : Ty), (ftys.map (·.1)).Nodup →
+    (n, t) ∈ ftys → loadField std cfg n j ftys = loadD std cfg t j
   | [], _, _, _, h => by simp at h
   | (m, u) :: r, n, t, hnd, h => by
     simp only [List.map_cons, List.nodup_cons] at hnd
@@ -603,9 +612,9 @@ theorem loadField_lookup (std : Std) (j : JVal) : ∀ (ftys : List (S × Ty)) (n
         · exact h
       have hb : (m == n) = false := by simpa using hm
       simp only [hb, Bool.false_eq_true, if_false]
-      exact loadField_lookup std j r n t hnd.2 ht
+      exact loadField_lookup std cfg j r n t hnd.2 ht
 
-theorem finishClass_ok (ci : ClassInfo) (ftys : List (S × Ty)) (hp : PlainCls ci ftys) (K : List (S × PyVal))
+theorem finishClass_ok (cfg : Option MetaCfg) (ci : ClassInfo) (ftys : List (S × Ty)) (hp : PlainCls cfg ci ftys) (K : List (S × PyVal))
     (hK : K.map (·.1) = ci.fields.map (·.name)) (o : JVal) : finishClass ci K [] o = .ok (.inst ci K) := by
   have hca : ci.fields.find? (·.isCatchAll) = none := by
     rw [List.find?_eq_none]; intro f hf; simp [(hp.plain f hf).2.1]
@@ -621,94 +630,117 @@ theorem finishClass_ok (ci : ClassInfo) (ftys : List (S × Ty)) (hp : PlainCls c
   simp only [List.nil_append] at hb
   simp [finishClass, withCatchAll, hca, hmiss, hb, bind, Except.bind, pure, Except.pure]
 
-theorem rt_inst (std : Std) (ci : ClassInfo) (ftys : List (S × Ty)) (vals : List PyVal) (hp : PlainCls ci ftys)
-    (hlen : vals.length = ftys.length) (ih : ∀ p ∈ ftys.zip vals, RT std p.1.2 p.2) :
-    RT std (.cls ci ftys) (.inst ci ((ftys.map (·.1)).zip vals)) := by
+theorem rt_inst (std : Std) (cfg : Option MetaCfg) (ci : ClassInfo) (ftys : List (S × Ty)) (vals : List PyVal) (hp : PlainCls cfg ci ftys)
+    (hlen : vals.length = ftys.length) (ih : ∀ p ∈ ftys.zip vals, RT std cfg p.1.2 p.2) :
+    RT std cfg (.cls ci ftys) (.inst ci ((ftys.map (·.1)).zip vals)) := by
   intro d h
   have hnames : (ftys.map (·.1)).Nodup := by rw [← hp.names]; exact hp.nodup
   have hl : (ftys.zip vals).map nv = (ftys.map (·.1)).zip vals := by
     rw [List.zip_map_left]; rfl
-  have hgood : ∀ e ∈ ftys.zip vals, GoodEntry std ci ftys e := by
+  have hgood : ∀ e ∈ ftys.zip vals, GoodEntry std cfg ci ftys e := by
     intro e he
     have hmem : e.1 ∈ ftys := (List.of_mem_zip he).1
     refine ⟨?_, ?_, ih e he⟩
     · have : e.1.1 ∈ ci.fields.map (·.name) := by rw [hp.names]; exact List.mem_map.2 ⟨e.1, hmem, rfl⟩
       obtain ⟨f, hf, hfn⟩ := List.mem_map.1 this
       exact ⟨f, hf, hfn⟩
-    · intro j; exact loadField_lookup std j ftys e.1.1 e.1.2 hnames hmem
+    · intro j; exact loadField_lookup std cfg j ftys e.1.1 e.1.2 hnames hmem
   rw [dumpV] at h
-  simp only [hp.noMeta, effMeta, bind, Except.bind] at h
+  simp only [hp.noSkip.ts, bind, Except.bind] at h
   split at h
   · simp at h
   · next body hb =>
     simp only [pure, Except.pure, Except.ok.injEq] at h; subst h
-    have hb' : dumpFields std false none eff0 {} ci ((ftys.zip vals).map nv) = .ok body := by
-      rw [hl]; simpa using hb
-    have hchain := fields_chain std ci ftys hp (ftys.zip vals) body hgood hb'
+    have hb' : dumpFields std false cfg (effMeta ci.cmeta cfg) {} ci ((ftys.zip vals).map nv) = .ok body := by
+      rw [hl]; exact hb
+    have hchain := fields_chain std cfg ci ftys hp (ftys.zip vals) body hgood hb'
     have hK : ((ftys.zip vals).map nv).map (·.1) = ci.fields.map (·.name) := by
       rw [hl, hp.names, List.map_fst_zip]; simp; omega
-    have hfin := finishClass_ok ci ftys hp ((ftys.zip vals).map nv) hK (.dict (toJPairs body))
-    have htj : toJ (finishInst ({} : MetaCfg) body) = .dict (toJPairs body) := by
-      simp [finishInst]; rw [toJ]
+    have hfin := finishClass_ok cfg ci ftys hp ((ftys.zip vals).map nv) hK (.dict (toJPairs body))
+    have htj : toJ (finishInst (effMeta ci.cmeta cfg) body) = .dict (toJPairs body) := by
+      simp [finishInst, hp.noSkip.tag]; rw [toJ]
     rw [htj, loadD]
-    simp only [hp.noMeta, effMeta, loadClassWith, hchain, bind, Except.bind, hfin]
+    simp only [loadClassWith, hchain, bind, Except.bind, hfin]
     rw [hl]
 
 /-- **structural round trip** over the fragment -/
-theorem roundtrip (std : Std) (laws : StdLaws std) (t : Ty) (v : PyVal) (hc : Conf std t v) : RT std t v := by
+theorem roundtrip (std : Std) (cfg : Option MetaCfg) (laws : StdLaws std) (t : Ty) (v : PyVal) (hc : Conf std cfg t v) : RT std cfg t v := by
   induction hc with
-  | int i => exact rt_int std i
-  | float f => exact rt_float std f
-  | leaf k t ht => exact rt_leaf std laws k t ht
-  | timedelta us h0 => exact rt_timedelta std laws us h0
-  | str s => exact rt_str std s
-  | bool b => exact rt_bool std b
-  | optNone t => exact rt_optNone std t
-  | optSome t v hn hc ih => exact rt_optSome std t v hn hc ih
-  | list t xs _ ih => exact rt_list std t xs ih
-  | vtuple t xs _ ih => exact rt_vtuple std t xs ih
-  | deque t xs _ ih => exact rt_deque std t xs ih
-  | tuple ts xs hne hl _ ih => exact rt_tuple std ts xs hne hl ih
-  | enum name members m v hm hr hu => exact rt_enum std name members m v hm hr hu
-  | dict t kvs hnd _ ih => exact rt_dict std t kvs hnd ih
-  | inst ci ftys vals hp hlen _ ih => exact rt_inst std ci ftys vals hp hlen ih
+  | int i => exact rt_int std cfg i
+  | float f => exact rt_float std cfg f
+  | leaf k t ht => exact rt_leaf std cfg laws k t ht
+  | timedelta us h0 => exact rt_timedelta std cfg laws us h0
+  | str s => exact rt_str std cfg s
+  | bool b => exact rt_bool std cfg b
+  | optNone t => exact rt_optNone std cfg t
+  | optSome t v hn hc ih => exact rt_optSome std cfg t v hn hc ih
+  | list t xs _ ih => exact rt_list std cfg t xs ih
+  | vtuple t xs _ ih => exact rt_vtuple std cfg t xs ih
+  | deque t xs _ ih => exact rt_deque std cfg t xs ih
+  | tuple ts xs hne hl _ ih => exact rt_tuple std cfg ts xs hne hl ih
+  | enum name members m v hm hr hu => exact rt_enum std cfg name members m v hm hr hu
+  | dict t kvs hnd _ ih => exact rt_dict std cfg t kvs hnd ih
+  | inst ci ftys vals hp hlen _ ih => exact rt_inst std cfg ci ftys vals hp hlen ih
 
 
-theorem roundtrip_root (std : Std) (laws : StdLaws std) (ci : ClassInfo) (ftys : List (S × Ty)) (v : PyVal) (hc : Conf std (.cls ci ftys) v)
+theorem orElse_self (o : MetaCfg) : o.orElse o = o := by
+  cases o; simp [MetaCfg.orElse]
+
+/-- the effective Meta of a main class is the one it has below its own travelling config -/
+theorem effMeta_root (own : Option MetaCfg) : effMeta own (rootConfig own) = effMeta own none := by
+  cases own with
+  | none => rfl
+  | some o =>
+    simp only [rootConfig]
+    split
+    · simp [effMeta, orElse_self]
+    · rfl
+
+/-- at the top level: `fromdict(cls, json(asdict(x))) = x` for a main class (any Meta whose effective settings are
+`PlainCls` below its own travelling config `rootConfig ci.cmeta`) -/
+theorem roundtrip_root (std : Std) (laws : StdLaws std) (ci : ClassInfo) (ftys : List (S × Ty)) (v : PyVal)
+    (hc : Conf std (rootConfig ci.cmeta) (.cls ci ftys) v)
     (d : DVal) (h : asdict std {} v = .ok d) : fromdict std (.cls ci ftys) (toJ d) = .ok v := by
   cases hc with
   | inst _ _ vals hp hlen hall =>
-    have hrt := roundtrip std laws (.cls ci ftys) _ (Conf.inst ci ftys vals hp hlen hall) d (by
-      rw [dumpV]; simpa [asdict, hp.noMeta, rootConfig] using h)
+    have hrt := roundtrip std (rootConfig ci.cmeta) laws (.cls ci ftys) _ (Conf.inst ci ftys vals hp hlen hall) d (by
+      rw [dumpV]
+      simp only [effMeta_root]
+      simpa [asdict] using h)
     rw [loadD] at hrt
-    simp only [fromdict, hp.noMeta, rootConfig]
-    simp only [hp.noMeta] at hrt
+    simp only [effMeta_root] at hrt
+    simp only [fromdict]
     rw [hrt]
 
-/-- a nested model of the fragment (non-vacuity of `PlainCls` / `Conf`) -/
+/-- a nested, *configured* model of the fragment (non-vacuity of `PlainCls` / `Conf`): the main class declares
+`key_transform_with_dump = 'LISP'`, which travels to the nested class; one field carries aliases with `all=True` -/
+def exMeta : MetaCfg := { keyTransformDump := some .lisp }
+def exCfg : Option MetaCfg := rootConfig (some exMeta)
 def exInner : ClassInfo :=
   { name := "Inner".toList,
     fields := [{ name := "val_one".toList }, { name := "tags".toList, loadKeys := ["TAGS".toList, "labels".toList], dumpAll := true }] }
 def exInnerTys : List (S × Ty) := [("val_one".toList, .int), ("tags".toList, .seq .list .str)]
-def exRoot : ClassInfo := { name := "Root".toList, fields := [{ name := "inner_obj".toList }, { name := "by_name".toList }, { name := "maybe".toList }] }
+def exRoot : ClassInfo :=
+  { name := "Root".toList, cmeta := some exMeta,
+    fields := [{ name := "inner_obj".toList }, { name := "by_name".toList }, { name := "maybe".toList }] }
 def exRootTys : List (S × Ty) :=
   [("inner_obj".toList, .cls exInner exInnerTys), ("by_name".toList, .map .dict .str (.cls exInner exInnerTys)), ("maybe".toList, .optional .bool)]
 
-theorem exInner_plain : PlainCls exInner exInnerTys := by
-  refine ⟨rfl, rfl, by decide, by decide, ?_⟩
+theorem exInner_plain : PlainCls exCfg exInner exInnerTys := by
+  refine ⟨⟨rfl, rfl, rfl, rfl, rfl⟩, rfl, by decide, by decide, ?_⟩
   intro f hf
   simp only [exInner, List.mem_cons, List.not_mem_nil, or_false] at hf
   rcases hf with rfl | rfl
-  · exact ⟨"valOne".toList, by rfl, by rfl⟩
+  · exact ⟨"val-one".toList, by rfl, by rfl⟩
   · exact ⟨"TAGS".toList, by rfl, by rfl⟩
 
-theorem exRoot_plain : PlainCls exRoot exRootTys := by
-  refine ⟨rfl, rfl, by decide, by decide, ?_⟩
+theorem exRoot_plain : PlainCls exCfg exRoot exRootTys := by
+  refine ⟨⟨rfl, rfl, rfl, rfl, rfl⟩, rfl, by decide, by decide, ?_⟩
   intro f hf
   simp only [exRoot, List.mem_cons, List.not_mem_nil, or_false] at hf
   rcases hf with rfl | rfl | rfl
-  · exact ⟨"innerObj".toList, by rfl, by rfl⟩
-  · exact ⟨"byName".toList, by rfl, by rfl⟩
+  · exact ⟨"inner-obj".toList, by rfl, by rfl⟩
+  · exact ⟨"by-name".toList, by rfl, by rfl⟩
   · exact ⟨"maybe".toList, by rfl, by rfl⟩
 
 end DW.RT
